@@ -481,6 +481,9 @@ func suiteC03(s *Shard, n int) {
 
 func suiteC08(s *Shard, n int) {
 	r := s.R
+	if s.Tier == "thorough" {
+		exhaustiveNumbers(s, s.NShards)
+	}
 	for i := 0; i < n; i++ {
 		switch r.Intn(4) {
 		case 0, 1: // numbers through every public path
@@ -618,6 +621,9 @@ func nearest64(f float32) float32 {
 
 func suiteC09(s *Shard, n int) {
 	r := s.R
+	if s.Tier == "thorough" {
+		exhaustiveColours(s, s.NShards)
+	}
 	if s.Index == 0 {
 		// all 256 one-byte colours and a stride through the two-byte colours, through the decoder
 		for x := 0; x < 256; x++ {
